@@ -125,6 +125,19 @@ theorem C12_flat_filtered_is_oracle_list {d : Doc} (wf : WF d) (cfg : ECfg) (hns
       (∀ x, x ∈ refs l ↔ x ∈ ns) ∧ refs l = ns :=
   flatFrag_main wf cfg hns hinj regexOk limit p hp st o hb c hc
 
+open XPathV.PathSem XPathV.PredSem XPathV.FlatFiltered in
+/-- `C12_flat_filtered_is_oracle_list` without the `HashInj` hypothesis (it is a theorem now: `hashInj_holds`; the side
+condition left is "no element has two attributes with the same prefix, name and value") -/
+theorem C12_flat_filtered_is_oracle_list_unconditional {d : Doc} (wf : WF d) (cfg : ECfg) (hns : cfg.nsIface = true)
+    (hattr : AttrTriplesDistinct d) (regexOk : RegexOk) (limit : Nat) (p : Ast) (hp : FlatFrag p) (st : BState) (o : BOut)
+    (hb : build regexOk limit true false p {} st = .ok o) (c : Ref) (hc : validRef d c = true) :
+    ∃ l ns g, sel (F := F) d cfg o.q c = .ok l ∧
+      (refs l).Pairwise (fun a b => Ref.lt a b = true) ∧ (refs l).Nodup ∧
+      Spec.eval (F := F) d p ⟨c, 1, 1⟩ = .ok (.val (.nodes ns) g) ∧
+      (∀ x, x ∈ refs l ↔ x ∈ ns) ∧ refs l = ns :=
+  C12_flat_filtered_is_oracle_list wf cfg hns (PathSem.hashInj_holds wf hattr cfg) regexOk limit p
+    hp st o hb c hc
+
 open XPathV.PathSem XPathV.FlatFiltered in
 /-- **`//name`** (absolute and relative), through the builder's shortcut: one descendant query,
 sequence strictly increasing in document order -/
